@@ -5,6 +5,7 @@
 -/
 import Genshi.Model.LoaderPath
 import Genshi.Lemmas.LruAbs
+import Genshi.Lemmas.Loader
 namespace Genshi.LoaderP
 open Genshi.Lru
 open Genshi.Loader (File Fault Err)
@@ -291,5 +292,55 @@ theorem hrun_awf (cfg : Cfg) (w : World) (ops : List HOp) (h : AWf w.ls.cache) :
   induction ops generalizing w with
   | nil => exact h
   | cons op ops ih => exact ih (hstep cfg w op).1 (hstep_awf cfg w op h)
+
+/-! ### a load touches the entry of its own key only -/
+
+theorem alookup_take {K V : Type} [DecidableEq K] {l : List (K × V)} {k : K} {v : V} (n : Nat)
+    (h : alookup k (l.take n) = some v) : alookup k l = some v := by
+  induction l generalizing n with
+  | nil => simp [alookup] at h
+  | cons p r ih =>
+    cases n with
+    | zero => simp [alookup] at h
+    | succ n =>
+      obtain ⟨k', v'⟩ := p
+      simp only [List.take_succ_cons, alookup] at h ⊢
+      by_cases hk : k' = k
+      · simpa [hk] using h
+      · simp only [hk, ↓reduceIte] at h ⊢
+        exact ih n h
+
+theorem alookup_touched_ne (s : LState) {key k : Key} (hk : k ≠ key) :
+    alookup k (touched s key).cache.items = alookup k s.cache.items := by
+  unfold touched
+  cases hl : alookup key s.cache.items with
+  | none => rfl
+  | some v =>
+    simp only [astep, hl]
+    have : key ≠ k := fun e => hk e.symm
+    simp only [alookup, this, ↓reduceIte]
+    exact Genshi.Loader.alookup_aerase_ne hk
+
+theorem alookup_set_ne {a : ALru Key Tmpl} {key k : Key} {t v : Tmpl} (hk : k ≠ key)
+    (h : alookup k (astep a (.set key t)).1.items = some v) : alookup k a.items = some v := by
+  simp only [astep] at h
+  have h1 := alookup_take _ h
+  have : key ≠ k := fun e => hk e.symm
+  simp only [alookup, this, ↓reduceIte] at h1
+  rwa [Genshi.Loader.alookup_aerase_ne hk] at h1
+
+theorem load_other_key (cfg : Cfg) (fs : FS) (s : LState) (r : Req) (k : Key) (t : Tmpl)
+    (hk : k ≠ resolve cfg.path.isEmpty r)
+    (h : alookup k (load cfg fs s r).1.cache.items = some t) : alookup k s.cache.items = some t := by
+  have he := load_effect cfg fs s r
+  cases hres : (load cfg fs s r).2 with
+  | err e =>
+    rw [(he.failed e hres).1, alookup_touched_ne s hk] at h; exact h
+  | ok t' =>
+    rcases he.ok t' hres with ⟨_, hc, _, _⟩ | ⟨_, _, hc, _⟩
+    · rw [hc, alookup_touched_ne s hk] at h; exact h
+    · rw [hc] at h
+      have := alookup_set_ne hk h
+      rwa [alookup_touched_ne s hk] at this
 
 end Genshi.LoaderP
